@@ -94,13 +94,8 @@ def model_checks(ctx):
 
 # ------------------------------------------------------------------------------------------- jobs
 def pick_dtypes(rng, z, layers, vs):
-    zopts = ["float64", "float64", "float32"]
-    if U.all_int_dtype_ok(z, 2):
-        zopts += ["int64", "int32"]
-    vopts = ["float64", "float64", "float32"]
-    if all(U.all_int_dtype_ok(v, vs) for v in layers):
-        vopts += ["int64", "int32"]
-    return rng.choice(zopts), rng.choice(vopts)
+    allv = [c for l in layers for c in l]
+    return U.pick_dtype(rng, z, 2, U.ZDTYPES), U.pick_dtype(rng, allv, vs, U.VDTYPES)
 
 
 def benign_cat_list(rng, universe):
@@ -145,13 +140,17 @@ def crosstab_job(rng, z, layers, H, W, kind, dim=2, vs=1, nds=(NONE, NONE, 0, 1,
     zall, zids, call, cids = selection(rng, kind, zlists, clists, present_z, present_c)
     if dim == 3 and not call:
         cids = [c for c in cids]          # labels, unscaled
-    return {"fn": "crosstab", "dim": dim, "H": H, "W": W, "z": list(z), "v": [list(l) for l in layers], "vs": vs,
-            "zdt": zdt, "vdt": vdt, "cats": list(cats or []), "layer": layer, "nd": nd, "zall": zall, "zids": zids,
-            "call": call, "cids": cids, "agg": rng.choice(list(aggs)), "backend": backend,
-            "steps": backend == "numpy", "tag": tag}
+    job = {"fn": "crosstab", "dim": dim, "H": H, "W": W, "z": list(z), "v": [list(l) for l in layers], "vs": vs,
+           "zdt": zdt, "vdt": vdt, "cats": list(cats or []), "layer": layer, "nd": nd, "zall": zall, "zids": zids,
+           "call": call, "cids": cids, "agg": rng.choice(list(aggs)), "backend": backend,
+           "steps": backend == "numpy", "tag": tag}
+    if dim == 3 and layer == 0 and rng.random() < 0.5:
+        job["layer_explicit"] = True
+    return U.vary(rng, job, [c for l in layers for c in l])
 
 
 KINDS = ["plain", "benign", "cats", "zones", "mixed"]
+LAYERS = [0, 1, 2, -1, -2]           # category dimension first, middle, last (3-D)
 
 
 def enum_jobs_2d(seed, n, zalpha, valpha, per_raster, tag):
@@ -193,7 +192,7 @@ def enum_jobs_3d(seed, n, zalpha, valpha, cats, tag, every_agg):
             for agg in (AGG3 if every_agg else [AGG3[k % 7]]):
                 kind = KINDS[(k + len(agg)) % len(KINDS)]
                 j = crosstab_job(rng, z, vv, H, W, kind, dim=3, nds=(NONE, NONE, 2, NAN), zlists=zl, clists=clists,
-                                 cats=cats, aggs=(agg,), tag=tag, layer=rng.choice([0, 0, 2]))
+                                 cats=cats, aggs=(agg,), tag=tag, layer=LAYERS[(k + len(jobs)) % 5])
                 if not j["call"]:
                     j["cids"] = list(rng.choice(clists))
                 jobs.append(j)
@@ -201,15 +200,33 @@ def enum_jobs_3d(seed, n, zalpha, valpha, cats, tag, every_agg):
     return jobs
 
 
+def matrix_jobs(seed, nrasters, tag="layout_matrix"):
+    """the systematic matrix: every (zones layout, values layout) pair on the same seeded rasters with at least 2 rows
+    and 2 columns (2-D and 3-D); for 3-D the position of the category dimension rotates over first / middle / last."""
+    base = [j for j in random_jobs(seed + 17, 6 * nrasters) if j["H"] > 1 and j["W"] > 1][:nrasters]
+    jobs = []
+    for k, b in enumerate(base):
+        for a, zl in enumerate(U.LAYOUTS):
+            for c, vl in enumerate(U.LAYOUTS):
+                j = dict(b)
+                j.update(zlay=zl, vlay=vl, tag=tag)
+                if j["dim"] == 3:
+                    j["layer"] = LAYERS[(k + a + c) % 5]
+                jobs.append(j)
+    return jobs
+
+
 def random_jobs(seed, count, backend="numpy", tag="random"):
     rng = random.Random(seed * 7919 + (4 if backend == "numpy" else 5))
     jobs = []
     while len(jobs) < count:
-        H, W = rng.choice([(2, 3), (3, 4), (4, 4), (5, 6), (6, 5), (7, 7), (8, 8), (1, 9), (8, 2)])
+        H, W = rng.choice([(2, 3), (3, 4), (4, 4), (5, 6), (6, 5), (7, 7), (8, 8), (1, 9), (8, 2), (2, 2), (3, 3)])
         n = H * W
         dim = rng.choice([2, 2, 3])
         vs = rng.choice([1, 1, 2])
         pool = rng.sample([-6, -3, -2, 0, 1, 4, 5, 8, 14, 20], 5)
+        if rng.random() < 0.3:
+            pool = rng.sample([0, 2, 4, 8, 14, 20, 40, 510], 5)          # non-negative integer ids (uint8 zones)
         zk = rng.choice(["finite", "nan", "nan", "posinf", "neginf" if rng.random() < 0.3 else "nan"])
         z = []
         for _c in range(n):
@@ -225,20 +242,24 @@ def random_jobs(seed, count, backend="numpy", tag="random"):
         present = sorted({c for c in z if U.finite(c)})
         if not present:
             continue
-        zcand = present + [c for c in pool if c not in present][:1] + [40]
+        zcand = present + [c for c in pool if c not in present][:1] + [998]
         zlists = [rng.sample(zcand, rng.randrange(0, min(len(zcand), 5) + 1)) for _ in range(6)]
         if backend == "dask":
             zlists = [l for l in zlists if set(l) & set(present)] or [present[:1]]
 
+        clean = rng.random() < 0.35            # no NaN / inf among the values: integer dtypes become eligible
+
         def cell(vals):
-            x = rng.random()
+            x = 1.0 if clean else rng.random()
             if x < 0.1:
                 return NAN
             if x < 0.14:
                 return rng.choice([PINF, NINF])
             return rng.choice(vals)
+        nonneg = rng.random() < 0.4                                       # unsigned value dtypes
         if dim == 2:
-            cvals = [c * (vs if rng.random() < 0.5 else 1) for c in rng.sample(range(-4, 9), rng.choice([2, 3, 5]))]
+            cvals = [c * (vs if rng.random() < 0.5 else 1)
+                     for c in rng.sample(range(0 if nonneg else -4, 9), rng.choice([2, 3, 5]))]
             layers = [[cell(cvals) for _c in range(n)]]
             ccand = sorted(set(cvals)) + [17]
             clists = [rng.sample(ccand, rng.randrange(0, len(ccand) + 1)) for _ in range(6)]
@@ -247,7 +268,7 @@ def random_jobs(seed, count, backend="numpy", tag="random"):
         else:
             nl = rng.choice([2, 3, 4])
             cats = rng.sample([1, 2, 3, 5, 7, 9], nl)
-            vals = [c * (vs if rng.random() < 0.5 else 1) for c in range(-9, 10)]
+            vals = [c * (vs if rng.random() < 0.5 else 1) for c in range(0 if nonneg else -9, 10)]
             layers = [[cell(vals) for _c in range(n)] for _l in range(nl)]
             ccand = list(cats) + [11]
             clists = [rng.sample(ccand, rng.randrange(0, len(ccand) + 1)) for _ in range(6)]
@@ -255,7 +276,7 @@ def random_jobs(seed, count, backend="numpy", tag="random"):
             aggs = tuple(AGG3) if backend == "numpy" else ("count",)
         kind = rng.choice(KINDS)
         j = crosstab_job(rng, z, layers, H, W, kind, dim=dim, vs=vs, nds=nds, zlists=zlists, clists=clists,
-                         cats=cats, aggs=aggs, backend=backend, tag=tag, layer=rng.choice([0, 0, 2]) if dim == 3 else 0)
+                         cats=cats, aggs=aggs, backend=backend, tag=tag, layer=rng.choice(LAYERS) if dim == 3 else 0)
         if dim == 3 and not j["call"]:
             j["cids"] = list(rng.choice(clists))
         if backend == "dask" and not j["zall"] and not (set(j["zids"]) & set(present)):
@@ -451,6 +472,7 @@ def run(ctx):
     jobs += multiset_jobs_2d(ctx.seed + 1, ctx.pick(5, 6), ZC, VC, "multiset")
     # ---- T: seeded larger rasters (same worker processes / judge JVMs as R: start-up dominates the quick tier)
     jobs += random_jobs(ctx.seed, ctx.pick(1500, 40000))
+    jobs += matrix_jobs(ctx.seed, ctx.pick(60, 600))
     run_batch(ctx, fails, jobs, "replay_and_random", "R/T")
     if thorough:
         run_batch(ctx, fails, enum_jobs_2d(ctx.seed + 3, 4, ZC, VC, per_raster=2, tag="all_n4"), "replay_n4", "R")
